@@ -297,6 +297,56 @@ def r7(ctx, prog):
     ctx.floor(R, 12)
 
 
+def r8(ctx, prog):
+    R = ctx.rule("C02.R8", "the hand-off is final: once the remote free has published the block (CAS onto the page's thread-free list or the heap's delayed list) "
+                           "the freeing thread touches neither the block nor the page again — the owner may already have re-used or released them")
+    f = prog.fn("mi_free_block_delayed_mt")
+    cfg = f.cfg
+    page_d, blk = f.param_id(0), f.param_id(1)
+
+    def mentions(fn, pts, ds):
+        out = []
+        for p in pts:
+            e = fn.cfg.elem_at(p)
+            if e is not None and fn.nodes[e]["k"] == "DeclRefExpr" and fn.nodes[e]["d"] in ds:
+                out.append(e)
+        return out
+    cas = [e for e in f.all(kind="AtomicExpr") if f.nodes[e]["aop"].startswith("cas")]
+    heap_push = [e for e in cas if f.mentions_field(f.nodes[e]["ptr"], "thread_delayed_free")]
+    page_cas = [e for e in cas if f.mentions_field(f.nodes[e]["ptr"], "xthread_free")]
+    n = 0
+    for e in heap_push:
+        for q in [q for p, q, x, pol in rl.edges_with_fact(f, lambda x, pol: isinstance(x, int) and pol and f.strip(x) == e)]:
+            n += 1
+            bad = mentions(f, cfg.reach([q]), {blk})
+            ctx.check(R, not bad, f.where(e), "after the successful push onto heap->thread_delayed_free the block is not referenced again%s" % (": " + f.loc(bad[0]) if bad else ""),
+                      key="C02.R8:heap_push")
+    # the page-list route: first CAS succeeded with the block linked in (use_delayed false)
+    ud = [dd["d"] for _, dd in rl.local_decl(f, lambda dd: dd["t"] == "_Bool")]
+    if page_cas and ud:
+        first = next((c for c in page_cas if all(c == o or cfg.reaches(cfg.after(c), cfg.pt(o)) for o in page_cas)), page_cas[0])
+        delayed = lambda x, pol: pol and rl.var_of(f, x) in ud
+        for q in [q for p, q, x, pol in rl.edges_with_fact(f, lambda x, pol: isinstance(x, int) and pol and f.strip(x) == first)]:
+            n += 1
+            bad = mentions(f, cfg.reach([q], edge_ok=rl.no_contradiction(f, delayed)), {blk, page_d})
+            ctx.check(R, not bad, f.where(first), "after the successful push onto page->xthread_free (not the delayed route) neither block nor page is referenced again%s"
+                      % (": " + f.loc(bad[0]) if bad else ""), key="C02.R8:page_push")
+    # callers: nothing after the call
+    for cname in rl.callers_of(prog, "mi_free_block_delayed_mt"):
+        g = prog.fn(cname)
+        segs = {g.param_id(k) for k, p_ in enumerate(g.d["params"]) if "mi_segment_t" in p_["t"] or "mi_page_t" in p_["t"] or "mi_block_t" in p_["t"]}
+        for c in g.calls("mi_free_block_delayed_mt"):
+            n += 1
+            ds = {rl.var_of(g, a) for a in g.nodes[c]["args"]} | segs
+            ds.discard(None)
+            bad = mentions(g, g.cfg.reach([g.cfg.after(c)]), ds)
+            ctx.check(R, not bad, g.where(c), "%s does not touch the block, its page or its segment after mi_free_block_delayed_mt returned%s" % (cname, ": " + g.loc(bad[0]) if bad else ""),
+                      key="C02.R8:caller:%s" % cname)
+    if n < 3:
+        ctx.broke("C02.R8: only %d hand-off sites found (3 confirmed)" % n)
+    ctx.floor(R, 3)
+
+
 def run(ctx):
     ctx.explanation = ("Static decision of protocol-shape necessary conditions of C02 over all 29 CAS sites and 150+ atomic operations: refresh of every value read from the "
                        "`expected` variable on the retry path, CAS result discipline, field-effect separation of the cross-thread free's call graph, the DELAYED_FREEING "
@@ -305,7 +355,7 @@ def run(ctx):
     for c in (["REL"] if ctx.tier == "quick" else ["REL", "SEC", "DBG"]):
         prog = ctx.prog(c)
         n0 = len(ctx.instances)
-        r1(ctx, prog); r2(ctx, prog); r3(ctx, prog); r4(ctx, prog); r5(ctx, prog); r6(ctx, prog); r7(ctx, prog)
+        r1(ctx, prog); r2(ctx, prog); r3(ctx, prog); r4(ctx, prog); r5(ctx, prog); r6(ctx, prog); r7(ctx, prog); r8(ctx, prog)
         if c != "REL":
             for i in ctx.instances[n0:]:
                 i["site"] += " [%s]" % c
